@@ -43,8 +43,9 @@ def gen_from(r, rng, depth=0):
         out += x
     return out
 
+FULLWIDTH = {ord('0') + i: 0xFF10 + i for i in range(10)}        # digits that are digits to Unicode, not to the schema
 def near_misses(v):
-    out = [v + 'X', v + '\n', ' ' + v, v[:-1], v.upper() if v.upper() != v else v.lower(), v[:1] + ' ' + v[1:], '', v + v]
+    out = [v + 'X', v + '\n', v.translate(FULLWIDTH), ' ' + v, v[:-1], v.upper() if v.upper() != v else v.lower(), v[:1] + ' ' + v[1:], '', v + v, v + '\u0663', v.replace('.', '\u066b') if '.' in v else v + '\u00a0']
     return [x for x in out if x != v]
 
 FREE = ['x', 'a b', 'Ünï çødé 中', '1', 'true', 'a:b', ' lead', 'trail ', '<&>"\'', 'N1', '10%', '1cm', '#000000']
